@@ -218,12 +218,12 @@ def run(ctx):
                          edge_ok=lambda b, i, s: not any(mentions_call(ef[2], 'BuildLog::WriteEntry') and ef[1] is False for ef in rc.edge_facts(b, i)))
         ctx.check('C07.O3', r is None, rc.name, 'RecordCommand:success-before-flush', rc.where(e), 'the build-log record is flushed before success')
     for name, mem in (('DepsLog::RecordId', ('Node::set_id',)), ('DepsLog::RecordDeps', ('DepsLog::UpdateDeps',))):
-        fs = [f for f in prog.fns(name) if any(True for _ in f.calls('fflush'))]
+        fs = [f for f in prog.fns(name) if any(True for _ in f.calls('fwrite'))]
         for f in fs:
             fl = list(f.calls('fflush'))
             for e in f.events('call'):
                 if e.get('name') in mem:
-                    ctx.check('C07.O3', f.dominates_ev(fl[0], e), f.name, 'memory-before-flush', f.where(e),
+                    ctx.check('C07.O3', any(f.dominates_ev(x, e) for x in fl), f.name, 'memory-before-flush', f.where(e),
                               '%s updates memory only after the record was flushed' % name)
     fc = prog.fn('Builder::FinishCommand')
     ef_ = list(fc.calls('Plan::EdgeFinished'))
